@@ -29,6 +29,9 @@ def check(run):
     run.trust("z3 / cvc5 (unsat answers)")
     run.assume("numba compiles the Python text faithfully up to integer width; width is covered by the discharged int64/int32 range obligations")
     run.assume("decorators, annotations and docstrings are dropped by the extraction; nothing else")
+    run.assume("vectorised functions (arr_comb, get_index_in_fock_(sub)space_array) are verified on their element-wise lifting "
+               "(vf/lift.py rules R1-R8, applied mechanically to the real source on every run): one generic element, shapes and "
+               "broadcasting dropped, every array temporary must fit int64 and every stored value the dtype of its array")
     run.assume("spec functions S and RK are defined by their unfold equations (recursive definitions); C by the Lean lemmas named in trusted_base")
     run.assume("pre-conditions state the property's own range: every partial sum / partial index / binomial term fits 32 bits")
 
